@@ -778,23 +778,7 @@ func (m *repoManager) loadMetadata() error {
 		if err := r.initMutationID(m.store, m.mutationIDStart, m.readOnly); err != nil {
 			return err
 		}
-		branchHeads := r.branchHeads()
-		if len(branchHeads) > 0 {
-			dvid.Infof("Caching branch heads for repo with root %s:\n", root)
-			for branch, headUUID := range branchHeads {
-				if branch == "" {
-					branch = "master"
-				}
-				desc := string(root) + branch
-				leaf, found := m.branchToUUID[desc]
-				if found && leaf != headUUID {
-					dvid.Errorf("Branch %q multiple leaves: %s and %s\n", branch, leaf, headUUID)
-				} else {
-					m.branchToUUID[desc] = headUUID
-					dvid.Infof("Branch %q: UUID %s\n", branch, headUUID)
-				}
-			}
-		}
+		m.cacheBranchHeads(r, false)
 	}
 	saveIDs := false
 
@@ -1143,9 +1127,7 @@ func (m *repoManager) newRepo(alias, description string, assign *dvid.UUID, pass
 	m.uuidToVersion[uuid] = v
 	m.repoMutex.Unlock()
 
-	m.branchMutex.Lock()
-	m.branchToUUID[string(uuid)+"master"] = uuid
-	m.branchMutex.Unlock()
+	m.cacheBranchHeads(r, false)
 
 	r.alias = alias
 	r.description = description
@@ -1733,6 +1715,7 @@ func (m *repoManager) hideBranch(uuid dvid.UUID, branch string) error {
 	}
 	r.Unlock()
 	m.repoMutex.Unlock()
+	m.cacheBranchHeads(r, true)
 	return r.save()
 }
 
@@ -1799,6 +1782,7 @@ func (m *repoManager) makeMaster(newMasterUUID dvid.UUID, oldMasterBranchName st
 		newMasterNode = childNode
 	}
 
+	m.cacheBranchHeads(r, false) // r is read-locked by this function
 	return r.save()
 }
 
@@ -1888,14 +1872,6 @@ func (m *repoManager) newVersion(parent dvid.UUID, note string, branchname strin
 	child.note = note
 	child.branch = branchname
 
-	m.branchMutex.Lock()
-	if branchname == "" {
-		m.branchToUUID[string(r.uuid)+"master"] = childUUID
-	} else {
-		m.branchToUUID[string(r.uuid)+branchname] = childUUID
-	}
-	m.branchMutex.Unlock()
-
 	m.repoMutex.Lock()
 	m.repos[childUUID] = r
 	m.repoMutex.Unlock()
@@ -1910,6 +1886,7 @@ func (m *repoManager) newVersion(parent dvid.UUID, note string, branchname strin
 	r.dag.Unlock()
 	r.updated = time.Now()
 	r.Unlock()
+	m.cacheBranchHeads(r, true)
 
 	// Notify data instances that we have a new child in case they have to do some kind of initialization.
 	r.RLock()
@@ -2037,6 +2014,7 @@ func (m *repoManager) merge(parents []dvid.UUID, note string, mt MergeType) (dvi
 	r.Lock()
 	r.updated = time.Now()
 	r.Unlock()
+	m.cacheBranchHeads(r, true) // the merge node is the newest node of master
 	return child.uuid, r.save()
 }
 
@@ -2438,14 +2416,48 @@ func newRepo(uuid dvid.UUID, v dvid.VersionID, id dvid.RepoID, passcode string) 
 	return repo
 }
 
+// branchHeads returns the head of every branch of the repo: the node created last on that
+// branch, i.e. the one with the largest local version id among the nodes carrying the branch
+// name ("" is master; merge nodes are on master).  It is a function of the DAG alone, so the
+// running server and a restarted one agree.  (Heads used to be the DAG leaves at start-up but
+// "whatever newVersion created last" while running: after a merge, or when the last node of a
+// branch had a child on another branch, the two differed and master could have two leaves.)
 func (r *repoT) branchHeads() map[string]dvid.UUID {
 	branchToUUID := make(map[string]dvid.UUID)
-	for _, node := range r.dag.nodes {
-		if len(node.children) == 0 {
+	best := make(map[string]dvid.VersionID)
+	for v, node := range r.dag.nodes {
+		if cur, found := best[node.branch]; !found || v > cur {
+			best[node.branch] = v
 			branchToUUID[node.branch] = node.uuid
 		}
 	}
 	return branchToUUID
+}
+
+// cacheBranchHeads replaces the cached branch heads of a repo by the ones its DAG gives.
+// If lock is true, the repo is read-locked while its DAG is walked.
+func (m *repoManager) cacheBranchHeads(r *repoT, lock bool) {
+	if lock {
+		r.RLock()
+	}
+	heads := r.branchHeads()
+	prefix := string(r.uuid)
+	if lock {
+		r.RUnlock()
+	}
+	m.branchMutex.Lock()
+	for desc := range m.branchToUUID {
+		if strings.HasPrefix(desc, prefix) {
+			delete(m.branchToUUID, desc)
+		}
+	}
+	for branch, headUUID := range heads {
+		if branch == "" {
+			branch = "master"
+		}
+		m.branchToUUID[prefix+branch] = headUUID
+	}
+	m.branchMutex.Unlock()
 }
 
 // For all data tiers of storage, remove data kv pairs associated with this data instance.
@@ -3086,39 +3098,20 @@ func (d *dagT) getAncestryByBranch(branch string) (ancestry []dvid.UUID, err err
 	d.RLock()
 	defer d.RUnlock()
 
-	// find leaf for this branch.
-	var branchName string
+	// start at the head of the branch: the node created last on it (see repoT.branchHeads).
+	// (This used to start at whichever node of the branch Go's map iteration produced first and
+	// walk down same-branch children, which failed or varied once a merge node was on the branch.)
 	var branchNode *nodeT
 	for _, node := range d.nodes {
 		if node.branch == branch || (branch == "master" && node.branch == "") {
-			branchNode = node
-			branchName = node.branch
+			if branchNode == nil || node.version > branchNode.version {
+				branchNode = node
+			}
 		}
 	}
 	if branchNode == nil {
 		ancestry = []dvid.UUID{}
 		return
-	}
-	for {
-		leaf := true
-		for _, childV := range branchNode.children {
-			child, found := d.nodes[childV]
-			if !found {
-				err = fmt.Errorf("branch %q node %s has child version %d that doesn't exist", branchName, branchNode.uuid, childV)
-				return
-			}
-			if child.branch == branchName {
-				if !leaf {
-					err = fmt.Errorf("branch %q has more than 1 child: %s and %s", branchName, child.uuid, branchNode.uuid)
-					return
-				}
-				branchNode = child
-				leaf = false
-			}
-		}
-		if leaf {
-			break
-		}
 	}
 
 	// start from leaf and work way up to root
